@@ -99,3 +99,53 @@ Proof.
   rewrite <- (process_depends_on_tree lower ev ev' o); [rewrite E; reflexivity|].
   unfold process in E. destruct (ev_tree ev); injection E as <- _; reflexivity.
 Qed.
+
+(* ---------- the caller's object between calls (C11, C13) ----------
+   The caller owns one object and may change it in place at any moment; Process is called on
+   the object as it is at that moment.  What the evaluator answers - including what
+   LastDebugErr answers after later changes of the object - is what the plain history answers
+   in which every Process carries the object of its own moment: the evaluator keeps no
+   reference to the caller's object. *)
+Inductive cop := CProcess | CChange (o : object) | CReset | CLastDebugErr.
+
+Section CallerStore.
+Variable lower : bytes -> bytes.
+
+Fixpoint wrun (ev : evaluator) (cur : object) (ops : list cop) : list eout :=
+  match ops with
+  | [] => []
+  | CProcess :: r => let '(ev', out) := estep lower ev (OpProcess cur) in out :: wrun ev' cur r
+  | CChange o :: r => wrun ev o r
+  | CReset :: r => let '(ev', out) := estep lower ev OpReset in out :: wrun ev' cur r
+  | CLastDebugErr :: r => let '(ev', out) := estep lower ev OpLastDebugErr in out :: wrun ev' cur r
+  end.
+
+Fixpoint at_call_time (cur : object) (ops : list cop) : list eop :=
+  match ops with
+  | [] => []
+  | CProcess :: r => OpProcess cur :: at_call_time cur r
+  | CChange o :: r => at_call_time o r
+  | CReset :: r => OpReset :: at_call_time cur r
+  | CLastDebugErr :: r => OpLastDebugErr :: at_call_time cur r
+  end.
+
+Theorem c11_caller_changes ops : forall ev cur, wrun ev cur ops = erun lower ev (at_call_time cur ops).
+Proof.
+  induction ops as [|op r IH]; intros ev cur; [reflexivity|].
+  destruct op; cbn [wrun at_call_time erun].
+  - destruct (estep lower ev (OpProcess cur)) as [ev' out]. rewrite IH. reflexivity.
+  - apply IH.
+  - destruct (estep lower ev OpReset) as [ev' out]. rewrite IH. reflexivity.
+  - destruct (estep lower ev OpLastDebugErr) as [ev' out]. rewrite IH. reflexivity.
+Qed.
+
+(* in particular: the diagnostic read after the object was changed is the diagnostic of the call *)
+Corollary c11_dbg_after_change ev o o' :
+  wrun ev o [CProcess; CChange o'; CLastDebugErr]
+  = [OutProcess (snd (process lower ev o)); OutDbg (o_dbg (snd (process lower ev o)))].
+Proof.
+  cbn [wrun estep]. destruct (process lower ev o) as [ev' r] eqn:E. cbn [snd].
+  f_equal. f_equal. f_equal.
+  change ev' with (fst (ev', r)). change r with (snd (ev', r)) at 2. rewrite <- E. apply c11_dbg_latest.
+Qed.
+End CallerStore.
